@@ -653,6 +653,26 @@ struct GramEngine {
     if (d.shared_anodes) rep.add("c13_cases_shared");
   }
 
+  // watchdog of one grammar: proportional to the number of parses it stands for (a curated grammar with 6
+  // terminals at n = 6 under ASan is > 2 million parses; a fixed 20 s would call that a hang)
+  int grammar_timeout(long gi) const {
+    double T = fam ? fam->sp.T : cur_T(gi), inputs = 0, p = 1;
+    if (chain_k) inputs = chain_k * chain_k;
+    else { for (int l = 0; l <= cfg.nmax; l++) { if (inputs + p > (double) cfg.maxin && l > 1) break; inputs += p; p *= T; } }
+    double variants = 1;
+    if (fam) variants = (double) cfg.ovs.size() * (double) cfg.cms.size() * (double) menu_vectors(fam->skels[gi], cfg.tm_scheme).size();
+    double parses = inputs * variants * (double) cfg.alloc_modes.size(), w = 0;
+    for (auto &f : cfg.flags) w += f.debug ? 20 : 1;   // debug levels print every set to stderr
+    double t = cfg.timeout + parses * w / 1000.0;
+    return (int) std::min(t, 3000.0);
+  }
+  // never wait much longer than the deadline allows
+  int within_deadline(int tmo) const {
+    if (cfg.deadline <= 0) return tmo;
+    double left = cfg.deadline - now_s() + 30;
+    return (int) std::max(20.0, std::min((double) tmo, left));
+  }
+
   // ------------------------------------------------------------------ driver loop
   int main_loop(int shard, int nshards, const std::string &out) {
     Report total;
@@ -670,7 +690,8 @@ struct GramEngine {
     for (size_t b = 0; b < mine.size(); b += cfg.batch) {
       if (cfg.deadline > 0 && now_s() > cfg.deadline) { deadline_hit = true; break; }
       size_t e = std::min(mine.size(), b + cfg.batch);
-      ChildRes cr = run_child([&](Report &r) { for (size_t k = b; k < e; k++) run_grammar(mine[k], r); }, total, cfg.timeout * cfg.batch);
+      int btmo = 0; for (size_t k = b; k < e; k++) btmo += grammar_timeout(mine[k]);
+      ChildRes cr = run_child([&](Report &r) { for (size_t k = b; k < e; k++) run_grammar(mine[k], r); }, total, within_deadline(btmo));
       if (!cr.ok) {
         if (cfg.deadline > 0 && now_s() > cfg.deadline) { deadline_hit = true; break; }   // do not start an isolation after the deadline
         // isolation is expensive (a fork per grammar / variant / input / flag vector): once this shard has
@@ -709,7 +730,15 @@ struct GramEngine {
       long gi = mine[k];
       if (cfg.deadline > 0 && now_s() > cfg.deadline) { total.add("deadline_hit_inside_grammar"); return; }
       GramCfg c0 = cfg; c0.only_gi = gi;
-      if (try_run(c0, gi, total)) continue;
+      int gtmo = within_deadline(grammar_timeout(gi));
+      ChildRes cr0;
+      if (try_run(c0, gi, total, &cr0, gtmo)) continue;
+      if (cfg.deadline > 0 && now_s() > cfg.deadline) { total.add("deadline_hit_inside_grammar"); return; }
+      if (cr0.timeout) {   // slow is not wrong: once more with a tenfold watchdog before anything is called a hang
+        gtmo = within_deadline(gtmo * 10);
+        if (try_run(c0, gi, total, &cr0, gtmo)) { total.add("slow_grammars"); continue; }
+        if (cfg.deadline > 0 && now_s() > cfg.deadline) { total.add("deadline_hit_inside_grammar"); return; }
+      }
       int reported = 0;
       Skel sk; if (fam) sk = fam->skels[gi];
       std::vector<std::vector<int>> mvs;
@@ -718,7 +747,8 @@ struct GramEngine {
       for (int ov : cfg.ovs) for (auto &tm : mvs) for (int cm : cfg.cms) {
         if (!fam && (ov || cm)) continue;
         GramCfg c1 = c0; c1.only_ov = ov; c1.only_tm = fam ? ints_dot(tm) : ""; c1.only_cm = cm;
-        if (try_run(c1, gi, total)) continue;
+        if (try_run(c1, gi, total, nullptr, gtmo)) continue;
+        if (cfg.deadline > 0 && now_s() > cfg.deadline) { total.add("deadline_hit_inside_grammar"); return; }
         if (reported >= 10) { total.add("failing_grammar_variants_not_isolated"); continue; }
         bool found = false;
         std::vector<int> w;
@@ -726,6 +756,7 @@ struct GramEngine {
           if (len > 0 && T == 0) break;
           w.assign(len, 0);
           for (;;) {
+            if (cfg.deadline > 0 && now_s() > cfg.deadline) { total.add("deadline_hit_inside_grammar"); return; }
             GramCfg c2 = c1; c2.only_in = ints_comma(w);
             if (!try_run(c2, gi, total)) {
               bool single = false;
@@ -763,7 +794,7 @@ struct GramEngine {
         }
         if (!found && reported < 10) {
           ChildRes cr2; Report dummy;
-          if (try_run(c1, gi, dummy, &cr2)) { cr2.err_tail = "(failed, then passed on replay - memory corruption with allocator-dependent effect) " + cr2.err_tail; cr2.sig = cr2.sig ? cr2.sig : 6; total.add("crashes_not_reproduced_on_replay"); }
+          if (try_run(c1, gi, dummy, &cr2, gtmo)) { cr2.err_tail = "(failed, then passed on replay - memory corruption with allocator-dependent effect) " + cr2.err_tail; cr2.sig = cr2.sig ? cr2.sig : 6; total.add("crashes_not_reproduced_on_replay"); }
           reported++;
           report_crash(gi, c1, cr2, total, true);
         }
